@@ -166,7 +166,29 @@ def refused_assignment_sweep(rng, n_sets, values=None):
     rng.shuffle(sets)
     bad, cases, raised = [], 0, 0
     for tr in sets[:n_sets]:
-        base = {n: (True if n in VOID else round(rng.uniform(-80, 80), 3)) for n in tr}
+        # stored values include the falsy / truthy-looking ones: exactly 0, -0.0, the int 0, exactly 1
+        base = {n: (True if n in VOID else rng.choice([0.0, -0.0, 0, 1.0, round(rng.uniform(-80, 80), 3), round(rng.uniform(-80, 80), 3)])) for n in tr}
+        # bulk assignments that are refused part-way (after at least one acceptable entry), through both bulk setters
+        others = [n for n in NAMES if n not in tr]
+        rng.shuffle(others)
+        good = {n: (True if n in VOID else 12.5) for n in others[:2]}
+        for kind, payload in (("asdict", dict(list(good.items()) + [("bogus", 1.0)])), ("asdict", dict(list(good.items()) + [((tr[0] if tr else others[3]), "abc")])),
+                              ("asdict", dict([(others[2], True if others[2] in VOID else 3.0)] + [(n, (2.0 if n in VOID else True)) for n in others[:1]])),
+                              ("astuple", tuple(list(good.items()) + [("bogus", 1.0)])), ("astuple", tuple(list(good.items()) + [(others[2],)]))):
+            try:
+                c = Constraints(dict(base))
+            except Exception:  # noqa
+                break
+            before = state_of(c)
+            cases += 1
+            try:
+                setattr(c, kind, payload)
+            except Exception as e:  # noqa
+                raised += 1
+                after = state_of(c)
+                if not same_state(before, after):
+                    bad.append((f"{kind} = {payload!r} on the set {show_state(before)} raised {type(e).__name__} but left {show_state(after)}",
+                                {"set": {k: repr(v) for k, v in base.items()}, "name": kind, "value": repr(payload)}))
         for name in NAMES:
             wrong = list(values or REFUSABLE) + ([True, False] if name not in VOID else [5.0, 0, "yes"])
             for val in wrong:
